@@ -456,6 +456,8 @@ class Engine:
                     if all(s2.add_fact(f) for f in facts):
                         self.visit(br, s2)
             return
+        if k == 'BinaryOperator' and e.get('opcode') == '*' and fe.is_float_type(e):
+            self.contraction(e, st)
         if is_assign(e):
             return self.assign(e, st)
         if is_incdec(e):
@@ -477,6 +479,45 @@ class Engine:
             return
         for c in kids(e):
             self.visit(c, st)
+
+    def cell_subscripts(self, e, st):
+        """X->data[i][j] / v->data[i] / buf[i]  ->  list of index Polys (outermost subscript first), or None"""
+        e = strip(e)
+        subs = []
+        while e.get('kind') == 'ArraySubscriptExpr':
+            b, i = kids(e)
+            if fe.is_float_type(strip(i, casts=False)):
+                return None
+            subs.append(self.ev(i, st))
+            e = strip(b)
+        if not subs:
+            return None
+        if e.get('kind') == 'MemberExpr' and e.get('name') == 'data':
+            return list(reversed(subs))
+        if e.get('kind') == 'DeclRefExpr':
+            return list(reversed(subs))
+        return None
+
+    def contraction(self, e, st):
+        """a product of two container cells inside loops: every loop variable that occurs in the subscripts of BOTH factors
+        must occur through the same index expression (a[i][k+2]*b[k+1][j] pairs column k+2 of a with row k+1 of b)"""
+        a, b = kids(e)
+        sa, sb = self.cell_subscripts(a, st), self.cell_subscripts(b, st)
+        if sa is None or sb is None:
+            return
+        loopvars = {x for p_ in sa for x in p_.atoms()} & {x for p_ in sb for x in p_.atoms()}
+        loopvars = {x for x in loopvars if '@L' in x or '!L' in x or x.startswith('?')}
+        for v in sorted(loopvars):
+            ia = [p_ for p_ in sa if v in p_.atoms()]
+            ib = [p_ for p_ in sb if v in p_.atoms()]
+            if len(ia) == 1 and len(ib) == 1 and ia[0] != ib[0]:
+                # the same loop variable drives one dimension of each factor through different expressions
+                d = ia[0] - ib[0]
+                if d.const_value() is not None and d.const_value() != 0:
+                    self.flag(e, 'contraction', 'the factors are paired through different indices of the summation variable %s: %s in `%s` '
+                              'but %s in `%s` (terms of a contraction must use the same index in both factors)' % (
+                                  re.split('[@!]', v.lstrip('?'))[0], ia[0], self.f.unit.text(a)[:40], ib[0], self.f.unit.text(b)[:40]), st,
+                              {'left_index': repr(ia[0]), 'right_index': repr(ib[0])})
 
     def deref_check(self, node, base, st):
         """use of a freed / never assigned container object"""
@@ -1095,6 +1136,8 @@ class Engine:
             return flows
         if k in flow.LOOPS:
             return self.exec_loop(s, states)
+        if k == 'SwitchStmt':
+            return self.exec_switch(s, states)
         if k == 'ReturnStmt':
             for st in states:
                 for c in kids(s):
@@ -1140,6 +1183,55 @@ class Engine:
         for st in states:
             self.visit(s, st)
         flows['norm'] = states
+        return flows
+
+    def exec_switch(self, s, states):
+        """switch with fall-through: every label is an entry point; execution runs on to the next break"""
+        flows = {'norm': [], 'brk': [], 'cont': [], 'ret': []}
+        ks = kids(s)
+        cond, body = ks[0], ks[-1]
+        items = []          # (labels at this position, statement)
+        for stmt in (kids(body) if body.get('kind') == 'CompoundStmt' else [body]):
+            labels = []
+            while stmt.get('kind') in ('CaseStmt', 'DefaultStmt'):
+                if stmt['kind'] == 'CaseStmt':
+                    labels.append(fe.int_value(kids(stmt)[0]))
+                    stmt = kids(stmt)[-1]
+                else:
+                    labels.append('default')
+                    stmt = kids(stmt)[-1] if kids(stmt) else {}
+            items.append((labels, stmt))
+        values = [l for ls, _ in items for l in ls if l != 'default' and l is not None]
+        has_default = any('default' in ls for ls, _ in items)
+        out_norm = []
+        for st in states:
+            self.visit(cond, st)
+            cv = None if fe.is_float_type(strip(cond, casts=False)) else self.ev(cond, st)
+            entries = []
+            for pos, (labels, _) in enumerate(items):
+                for l in labels:
+                    s2 = st.copy()
+                    ok = True
+                    if l != 'default' and l is not None and cv is not None:
+                        ok = s2.add_fact(cv - l) and s2.add_fact(Poly.const(l) - cv)
+                        if ok:
+                            self.learn_eq(s2, cv, Poly.const(l))
+                    if ok and self.feasible(s2):
+                        entries.append((pos, s2))
+            if not has_default:
+                out_norm.append(st.copy())        # no label matches
+            for pos, s2 in entries:
+                cur = [s2]
+                for (_, stmt) in items[pos:]:
+                    if not cur:
+                        break
+                    f2 = self.exec(stmt, cur)
+                    out_norm += f2['brk']           # break leaves the switch
+                    flows['cont'] += f2['cont']
+                    flows['ret'] += f2['ret']
+                    cur = f2['norm']
+                out_norm += cur
+        flows['norm'] = self.merge(out_norm)
         return flows
 
     def decl(self, v, st):
